@@ -156,6 +156,17 @@ impl<'a> TypeFn for Show<'a> {
         Ok(x.show())
     }
 }
+struct ShowSpec<'a> {
+    v: &'a Value,
+    spec: &'a str,
+}
+impl<'a> TypeFn for ShowSpec<'a> {
+    type Out = Result<String, String>;
+    fn call<T: Calc>(self) -> Self::Out {
+        let x = T::from_json(self.v).or_else(|_| T::from_json(&round_f32(self.v)))?;
+        x.show_spec(self.spec).ok_or(format!("format spec {} of Render.tla is unknown to the harness", self.spec))
+    }
+}
 
 pub fn round_f32(v: &Value) -> Value {
     match v {
@@ -190,6 +201,7 @@ fn same_tokens(obs: &[Tok], model: &[Tok], f32mode: bool) -> bool {
 pub fn render_file(path: &str) -> Result<Value, String> {
     let text = std::fs::read_to_string(path).map_err(|e| format!("{path}: {e}"))?;
     let mut cases = 0u64;
+    let mut spec_cases = 0u64;
     let mut per_type = std::collections::BTreeMap::<String, u64>::new();
     let mut mismatches = vec![];
     let mut samples = vec![];
@@ -213,10 +225,29 @@ pub fn render_file(path: &str) -> Result<Value, String> {
                 mismatches.push(json!({"type": key, "value": case["v"], "rendered": shown,
                     "expected_tokens": case["tokens"], "observed_tokens": format!("{:?}", tokenise(&shown))}));
             }
+            // the same value under the other format specs of the model: the text must still carry exactly the stored values
+            for spec in case["specs"].as_array().map(|a| a.as_slice()).unwrap_or(&[]) {
+                let spec = spec.as_str().unwrap_or("");
+                if spec == "{}" { continue; }
+                let shown_s = match dispatch(key, ShowSpec { v: &case["v"], spec }) {
+                    Some(Ok(s)) => s,
+                    Some(Err(e)) => return Err(format!("{key}: {e}")),
+                    None => continue,
+                };
+                spec_cases += 1;
+                let ok = match tokenise(shown_s.trim()) {
+                    Ok(obs) => same_tokens(&obs, &model, f32mode),
+                    Err(_) => false,
+                };
+                if !ok && mismatches.len() < 5 {
+                    mismatches.push(json!({"type": key, "value": case["v"], "format_spec": spec, "rendered": shown_s, "rendered_plain": shown,
+                        "expected_tokens": case["tokens"], "observed_tokens": format!("{:?}", tokenise(shown_s.trim()))}));
+                }
+            }
             if samples.len() < 4 && cases % 97 == 1 {
                 samples.push(json!({"type": key, "rendered": shown}));
             }
         }
     }
-    Ok(json!({"cases": cases, "per_type": per_type, "mismatches": mismatches, "samples": samples}))
+    Ok(json!({"cases": cases, "format_spec_cases": spec_cases, "per_type": per_type, "mismatches": mismatches, "samples": samples}))
 }
